@@ -106,23 +106,25 @@ def run_instance(case, ctx):
 
     def bad(key, what):
         viol.append({"key": "C14/" + key, "what": "message object %s (%s): %s" % (kind, v, what)})
-    # (1) SOAP envelope around the instance, as the PAOS/ECP code builds it
-    try:
-        env_text = soap.make_soap_enveloped_saml_thingy(inst)
-        envl = ET.fromstring(env_text if isinstance(env_text, bytes) else env_text.encode("utf-8"))
-        counters["independent_reads"] += 1
-        body = [c for c in envl if c.tag == "{%s}Body" % SOAPENV]
-        if len(body) != 1 or len(body[0]) != 1:
-            bad("soap-envelope-structure", "%d bodies" % len(body))
-        elif canon(body[0][0]) != want:
-            bad("instance-envelope-not-element-identical", "independent read of the envelope body differs from the message (first difference in attributes: %r vs %r)" % (
-                sorted(body[0][0].attrib.items())[:6], sorted(ET.fromstring(inst.to_string()).attrib.items())[:6]))
-        back = soap.parse_soap_enveloped_saml_thingy(env_text, ["{%s}%s" % (cls.c_namespace, cls.c_tag)])
-        counters["library_decodes"] += 1
-        if back is None or canon(ET.fromstring(back if isinstance(back, bytes) else back.encode("utf-8"))) != want:
-            bad("instance-envelope-roundtrip", "library decoder returned something else than the message")
-    except Exception as exc:
-        bad("packaging-raised:instance-envelope", repr(exc)[:200])
+    # (1) SOAP envelope around the instance, as the PAOS/ECP code builds it (soap.py) and as the binding encoders do (pack.py, instance path)
+    from saml2_tophat import pack as _pack
+    for bname, builder in (("soap", soap.make_soap_enveloped_saml_thingy), ("pack", _pack.make_soap_enveloped_saml_thingy)):
+        try:
+            env_text = builder(inst)
+            envl = ET.fromstring(env_text if isinstance(env_text, bytes) else env_text.encode("utf-8"))
+            counters["independent_reads"] += 1
+            body = [c for c in envl if c.tag == "{%s}Body" % SOAPENV]
+            if len(body) != 1 or len(body[0]) != 1:
+                bad("soap-envelope-structure", "%s builder: %d bodies" % (bname, len(body)))
+            elif canon(body[0][0]) != want:
+                bad("instance-envelope-not-element-identical", "%s builder: independent read of the envelope body differs from the message: %s" % (
+                    bname, _first_diff(want, canon(body[0][0]))))
+            back = soap.parse_soap_enveloped_saml_thingy(env_text, ["{%s}%s" % (cls.c_namespace, cls.c_tag)])
+            counters["library_decodes"] += 1
+            if back is None or canon(ET.fromstring(back if isinstance(back, bytes) else back.encode("utf-8"))) != want:
+                bad("instance-envelope-roundtrip", "%s builder: library decoder returned something else than the message" % bname)
+        except Exception as exc:
+            bad("packaging-raised:instance-envelope", bname + " builder: " + repr(exc)[:200])
     # (2) the message as extension element (ArtifactResponse carries it so) and back
     try:
         ee = saml2_tophat.element_to_extension_element(inst)
@@ -202,7 +204,7 @@ def setup_worker(ctx):
     rid, req = sp.create_authn_request(fed.SSO_REDIRECT, sign=True)
     msgs.append(("authn_request-signed", "%s" % req, False, "authn_request"))
     from saml2_tophat.saml import NameID, NAMEID_FORMAT_TRANSIENT
-    nid = NameID(format=NAMEID_FORMAT_TRANSIENT, text="DOMAIN\\user <&> \"1\"\nline \\g<1>")
+    nid = NameID(format=NAMEID_FORMAT_TRANSIENT, text="DOMAIN\\user <&> \"1\"\nline \\g<1> cr\rlf\r\nend")
     rid, req = sp.create_logout_request(fed.SLO_IDP, fed.IDP_EID, name_id=nid, reason="bye & <thanks>")
     msgs.append(("logout_request", "%s" % req, False, "logout_request"))
     rid, req = sp.create_attribute_query(fed.SSO_REDIRECT, nid, attribute={"givenName": None})
